@@ -267,7 +267,6 @@ impl TerminalRenderer {
     pub fn frame<T: Terminal + ?Sized>(&mut self, term: &mut T) -> Result<(), Error> {
         // clear hoisted locals
         self.images.clear();
-        self.marks.fill(CellMark::Empty);
 
         // First pass
         //
@@ -425,6 +424,8 @@ impl TerminalRenderer {
         self.frame_count += 1;
         std::mem::swap(&mut self.front, &mut self.back);
         self.front.clear();
+        // marks set by `clear`/`new(clear=true)` must survive until they are used here
+        self.marks.fill(CellMark::Empty);
 
         Ok(())
     }
